@@ -6,7 +6,7 @@ func init() {
 		Title: "BM25 search returns exactly the matching documents with textbook scores",
 		Harnesses: []*HarnessSpec{
 			{Name: "H_C03_score", Tier: "quick", What: "symbolic statistics: 4 documents / 2 terms built directly under the representation invariant, term frequencies and lengths symbolic ints in [0,1000], optional soft-deleted document, id filter, k any int: match set, Okapi BM25 score (k1=1.2, b=0.75, idf=ln((N-df+.5)/(df+.5)+1)), descending order, top-k (both the full-sort and the bounded min-heap path)", Covers: []string{"full-path", "heap-path"}},
-			{Name: "H_C03_step", Tier: "quick", What: "histories of 2..3 operations over Add(fresh) / Add(existing = replace) / Remove / Flush on 2 ids and 3 texts (empty, repeated tokens, full-width + punctuation): representation invariant (numDocs, lengths, totals, avg, tf, postings, nothing left of replaced texts; removed documents counted until Flush) and the search answer against a reference corpus; k symbolic", Covers: []string{"ran"}},
+			{Name: "H_C03_step", Tier: "quick", What: "histories of 2..4 operations over Add(fresh) / Add(existing = replace) / Remove / Flush on 2 ids and 3 texts (empty, repeated tokens, full-width + punctuation): representation invariant (numDocs, lengths, totals, avg, tf, postings, nothing left of replaced texts; removed documents counted until Flush) and the search answer against a reference corpus; k symbolic", Covers: []string{"ran"}},
 			{Name: "H_C03_many", Tier: "quick", What: "12 documents matching the query (one removed) — more than the default k=10 — k over all of int or left at the default", Covers: []string{"more-than-default-k"}},
 			{Name: "H_C03_tokens", Tier: "quick", What: "tokens = UAX#29 segments of the NFKC-normalised lower-cased text: 5 fixed expectations through the real libraries", Covers: []string{"ran"}},
 			{Name: "H_C03_multi", Tier: "quick", What: "two queries combined by sum / max / mean (k covering every match)", Covers: []string{"ran"}},
